@@ -1025,9 +1025,22 @@ ImplDrift(ev, pre) ==
           THEN F(Rank(m[2]) = 0 /\ r.v = ValAt(Elem(m[2]), <<>>), "L2." \o ev.op \o ".scalar")
           ELSE {}
 
+
+\* C07 routine level: one recorded call of the axis-matching routine
+ReshapeArgsEv(ev) ==
+  LET t == ev.regs.tab
+      en == Flag(t, "back") \/ IsMergeDrop(t.shape, t.newshape)
+  IN IF ~en THEN {}
+     ELSE IF ev.outcome = "raise" THEN {"C07.routine.raises"}
+     ELSE F(PlanWellFormed(t.shape, t.subsizes, t.plan), "C07.routine.plan_well_formed")
+          \cup (IF PlanWellFormed(t.shape, t.subsizes, t.plan)
+                THEN F(ShapeOfAxes(ApplyPlan(t.shape, t.subsizes, t.plan)) = t.newshape, "C07.routine.plan_gives_target")
+                ELSE {})
+
 ---------------------------------------------------------------------------
 OpFails(ev, pre) ==
   IF ev.op \in {"group_pairs", "group_assoc", "sectors"} THEN TableFails(ev)
+  ELSE IF ev.op = "reshape_args" THEN ReshapeArgsEv(ev)
   ELSE IF ev.op = "threads_run" THEN ThreadsEv(ev)
   ELSE IF ev.op = "mode_ctx" THEN ModeCtxEv(ev)
   ELSE IF ev.op \in {"set_cache", "set_default_mode", "make_state"} THEN {}
